@@ -36,8 +36,8 @@ theorem mutex_redis_live (p : Redis.Params) (s : Redis.State) (h : Redis.Reach p
 /-- the lease assumption is necessary: once the TTL elapses a second client acquires while the
     first is still in its critical section -/
 theorem redis_mutex_needs_lease :
-    ∃ s, Redis.Reach ⟨1, 1⟩ s ∧ Redis.isHolding s 0 ∧ Redis.isHolding s 1 := by
-  let p : Redis.Params := ⟨1, 1⟩
+    ∃ s, Redis.Reach ⟨1, 1, 1⟩ s ∧ Redis.isHolding s 0 ∧ Redis.isHolding s 1 := by
+  let p : Redis.Params := ⟨1, 1, 1⟩
   have r1 : Redis.Reach p (Redis.begin p Redis.init 0 .lock) := .step .init (.begin _ 0 .lock rfl)
   have r2 := Redis.Reach.step r1 (Redis.Step.attempt _ 0 .lock 0 0 1 rfl (Nat.le_refl _) (by decide))
   have r3 := Redis.Reach.step r2 (Redis.Step.tickServer _)
@@ -50,7 +50,7 @@ theorem redis_mutex_needs_lease :
     (its only attempt is the one due when it entered `Obtain`). -/
 theorem trylock_fails_fast_redis (p : Redis.Params) (s : Redis.State) (h : Redis.Reach p s)
     (i tok na dl : Nat) (hi : s.cl i = .trying .try tok na dl) :
-    dl = na + p.ttl ∧
+    dl = na + p.wait ∧
     ((Redis.alive s).isSome → let s' := Redis.attempt p s i .try tok dl
         s'.cl i = .failed ∧ s'.now = s.now ∧ s'.wall = s.wall ∧ s'.val = s.val) := by
   refine ⟨(Redis.inv_reach h).tryOnce i tok na dl hi, ?_⟩
@@ -101,7 +101,7 @@ theorem waiter_gives_up_at_deadline (p : Redis.Params) (s s' : Redis.State) (st 
         rw [hi] at hj; injection hj with hm _ _ _; subst hm
         simp [hv, Redis.setCl] at hf
       · cases m <;> simp [hv, Redis.setCl, hji, hi] at hf
-  | giveup j t na' dl' hj hdl =>
+  | giveup j m' t na' dl' hj hdl =>
     by_cases hji : i = j
     · subst hji; rw [hi] at hj; injection hj with _ _ _ hd; subst hd; exact hdl
     · simp [Redis.setCl, hji, hi] at hf
@@ -213,8 +213,8 @@ example : ∃ s, Etcd.ReachWL ⟨3, 1⟩ s ∧ s.phase 0 = .holding ∧ s.phase 
   have r3 := Etcd.ReachWL.step r2 (Etcd.StepWL.step (Etcd.Step.acquire (p := p) _ 2 .try rfl rfl) (noLoss _ _ _))
   exact ⟨_, r3, by decide, by decide, by decide⟩
 
-example : ∃ s, Redis.ReachWL ⟨2, 1⟩ s ∧ Redis.isHolding s 0 ∧ s.cl 1 = .trying .lock 1 1 2 := by
-  let p : Redis.Params := ⟨2, 1⟩
+example : ∃ s, Redis.ReachWL ⟨2, 2, 1⟩ s ∧ Redis.isHolding s 0 ∧ s.cl 1 = .trying .lock 1 1 2 := by
+  let p : Redis.Params := ⟨2, 2, 1⟩
   have nt : ∀ (s s' : Redis.State), s'.nextTok ≠ s.nextTok → s' = { s with now := s.now + 1 } → Redis.LeaseOK s := by
     intro s s' hne e; subst e; exact absurd rfl hne
   have r1 := Redis.ReachWL.step .init (Redis.StepWL.step (Redis.Step.begin (p := p) Redis.init 0 .lock rfl) (nt _ _ (by decide)))
